@@ -177,8 +177,16 @@ def run_case(c, d):
     feats = {'cplx': bool(d['cplx'])}
     arg = list(x) if d['cont'] == 'list' else x
     arg_copy = np.array(x, copy=True)
+    if d.get('i', 0) % 4 == 1:
+        # the same record was first fitted with another normalisation / a higher order (results not used)
+        for nrm, o in (('unbiased', min(order + 2, d['N'] - 1)), ('biased', min(order + 1, d['N'] - 1))):
+            try:
+                spectrum.aryule(arg, o, nrm)
+            except Exception:
+                pass            # an indefinite unbiased sequence may legitimately be refused
     try:
         A, P, k = spectrum.aryule(arg, order)
+        kept = (np.array(A, copy=True), np.array(k, copy=True))
     except Exception as exc:
         c.exception('aryule', exc, dict(feats, fn='aryule'))
         return
@@ -209,6 +217,14 @@ def run_case(c, d):
         except Exception as exc:
             c.exception('aryule', exc, dict(feats, fn='aryule'))
         x[:] = np.asarray(arg_copy)
+    # what a call returned stays what it returned after later calls on other records of the same size
+    if d.get('i', 0) % 4 == 2:
+        try:
+            spectrum.aryule(gen.noise(c.rng(d, 'other'), d['N'], bool(d['cplx'])), order)
+            c.require('aryule:earlier-result-unchanged-by-a-later-call',
+                      np.array_equal(np.asarray(A), kept[0]) and np.array_equal(np.asarray(k), kept[1]), {}, dict(feats, fn='aryule'))
+        except Exception as exc:
+            c.exception('aryule', exc, dict(feats, fn='aryule'))
     # class form
     try:
         p = spectrum.pyule(arg, order, NFFT=max(64, 2 * d['N']))
